@@ -18,17 +18,18 @@ T = 6000000000
 INITIAL_BP = ['!', 'wl_surface']
 COMMANDS = ['resume', 'quit', 'help', 'list', 'breakpoint wl_surface', 'breakpoint !', 'connection A', 'connection all',
             'filter wl_pointer', 'breakpoint ! .motion', 'r', 'q', 'connection B', 'connection Z', 'breakpoint [', 'filter *',
-            'breakpoint (wl_seat)', 'breakpoint ("wl_seat")', 'breakpoint B: .commit']
+            'breakpoint (wl_seat)', 'breakpoint ("wl_seat")', 'breakpoint B: .commit', 'breakpoint B: wl_surface']
 CMD_REF = {'breakpoint wl_surface': ('wl_surface', ['wl_surface'], []), 'breakpoint !': ('!', 'NONE', None),
            'breakpoint ! .motion': ('! .motion', [], ['.motion']),
-           'breakpoint B: .commit': ('B: .commit', ['B: .commit'], []),      # connection names are capitals: the text is case sensitive
+           'breakpoint B: .commit': ('B: .commit', ['B: .commit'], []),
+           'breakpoint B: wl_surface': ('B: wl_surface', ['B: wl_surface'], []),      # connection names are capitals: the text is case sensitive
            # two patterns that print alike (string arguments are printed without quotes) but mean different things
            'breakpoint (wl_seat)': ('(wl_seat)', ['(wl_seat)'], []), 'breakpoint ("wl_seat")': ('("wl_seat")', ['("wl_seat")'], [])}
 MSG_KINDS = ['commit', 'motion', 'enter', 'name', 'orphan']
 CONNS = ('1', '2', '3')
 # every kind on two connections; a third connection (needed to tell "the selected one" from "not the closed one") carries two
 # ... and the first program may announce an application id that reads like the name of the second connection
-MSGS = [(c, k) for c in ('1', '2') for k in MSG_KINDS] + [('3', 'commit'), ('3', 'motion'), ('1', 'appid')]
+MSGS = [(c, k) for c in ('1', '2') for k in MSG_KINDS] + [('3', 'commit'), ('3', 'motion'), ('1', 'appid'), ('1', 'create')]
 
 
 def _u(conn, sent, iface, oid, name, args):
@@ -48,7 +49,7 @@ def prelude(conn):
     ]
 
 
-def message_for(conn, kind):
+def message_for(conn, kind, nth=0):
     if kind == 'commit':
         return _u(conn, True, 'wl_surface', 4, 'commit', [])
     if kind == 'motion':
@@ -57,6 +58,8 @@ def message_for(conn, kind):
         return _u(conn, False, 'wl_pointer', 6, 'enter', [['int', 7], ['obj', 'wl_surface', 4], ['fixed', 0], ['fixed', 0]])
     if kind == 'appid':
         return _u(conn, True, 'xdg_toplevel', 9, 'set_app_id', [['str', 'b']])
+    if kind == 'create':      # a further surface: what a connection-qualified bare `wl_surface` must not take from another connection
+        return _u(conn, True, 'wl_compositor', 3, 'create_surface', [['new', 'wl_surface', 40 + nth]])
     if kind == 'orphan':      # an event on a surface GDB never saw being created (attached late): still a wl_surface message
         return _u(conn, False, 'wl_surface', 99, 'enter', [['nil']])
     return _u(conn, False, 'wl_seat', 5, 'name', [['str', 'wl_seat']])
@@ -80,19 +83,21 @@ class RefPause:
         self.filter = 'all'      # the output filter must not influence halting, but it is part of the state
         self.impl_bp = None      # the implementation's own printed breakpoint: states that print differently are not merged
         self.closed = set()      # connections libwayland has destroyed
+        self.idled = False       # a minute of idleness happened (once per history)
         self.appid = False       # the first connection has announced the application id `b` (part of what a name may refer to)
         # selection: None = all, a name, or '?' once the selected connection itself was destroyed (what is selected then
         # is not specified: nothing about halting is demanded until the user selects again)
 
     def key(self):
-        return [self.bp.key(), self.selection, self.halted, self.quit, self.filter, self.impl_bp, sorted(self.closed), self.appid]
+        return [self.bp.key(), self.selection, self.halted, self.quit, self.filter, self.impl_bp, sorted(self.closed), self.appid, self.idled]
 
     def enabled(self):
         if self.quit:
             return []
         if self.halted:
             return [['cmd', c] for c in COMMANDS] + [['continue']]
-        return [['msg', c, k] for c, k in MSGS if c not in self.closed] + [['destroy', c] for c in CONNS if c not in self.closed]
+        return [['msg', c, k] for c, k in MSGS if c not in self.closed] + [['destroy', c] for c in CONNS if c not in self.closed] + \
+            ([] if self.idled else [['idle']])
 
 
 def run_hist(init_bp, hist, check_from=0):
@@ -106,7 +111,7 @@ def run_hist(init_bp, hist, check_from=0):
         npre = len(msgs)
         for e in hist:
             if e[0] == 'msg':
-                msgs.append(message_for(e[1], e[2]))
+                msgs.append(message_for(e[1], e[2], len(msgs)))
         lines, views = ms.build_universe(sut.REPO, msgs)
         env = gdbenv.make_plugin(stop=None if init_bp == '!' else init_bp)
         inf = gdbenv.Inferior()
@@ -153,6 +158,9 @@ def run_hist(init_bp, hist, check_from=0):
                     ref.appid = True
             elif e[0] == 'continue':
                 ref.halted = False
+            elif e[0] == 'idle':
+                env['clock'][0] += 61.0       # the program sits idle for a minute (GDB mode stamps messages with the wall clock)
+                ref.idled = True
             elif e[0] == 'destroy':
                 # libwayland destroys the connection: no message, so never a halt - whatever the pause flag still says
                 # (the user may have carried on with GDB's own `continue` after the last halt)
